@@ -157,6 +157,22 @@ pub fn synthesize(wasm: &[u8], a: &AMod, version: u16, span: usize) -> (Vec<u8>,
         unit.get_mut(sp).set(gimli::DW_AT_low_pc, AttributeValue::Address(Address::Constant(low)));
         unit.get_mut(sp).set(gimli::DW_AT_high_pc, AttributeValue::Udata(len));
         info.subprograms.push((low, len));
+        // children, so that entries with children are followed by siblings (as in any compiled
+        // unit): a lexical block covering the body from its first instruction, or a parameter
+        // without addresses; every third subprogram stays childless
+        let ord = info.subprograms.len() - 1;
+        if ord % 3 == 0 {
+            let first = body.ops[0].offset as u64 - content;
+            let end = body.body_range.1 as u64 - content;
+            let blk = unit.add(sp, gimli::DW_TAG_lexical_block);
+            unit.get_mut(blk).set(gimli::DW_AT_low_pc, AttributeValue::Address(Address::Constant(first)));
+            unit.get_mut(blk).set(gimli::DW_AT_high_pc, AttributeValue::Udata(end - first));
+            let var = unit.add(blk, gimli::DW_TAG_variable);
+            unit.get_mut(var).set(gimli::DW_AT_name, AttributeValue::String(b"v".to_vec()));
+        } else if ord % 3 == 1 {
+            let par = unit.add(sp, gimli::DW_TAG_formal_parameter);
+            unit.get_mut(par).set(gimli::DW_AT_name, AttributeValue::String(b"p".to_vec()));
+        }
     }
     dwarf.units.add(unit);
     let mut sections = Sections::new(EndianVec::new(LittleEndian));
